@@ -68,6 +68,16 @@ def run(ctx):
         sg = sites_on(cw, SIGNAL, '.DbInner.cleanup_worker_wait')
         wt = sites_on(cw, WAIT, '.DbInner.commit_worker_wait')
         lib.precedes(ctx, '1i idle-commit-worker-wakes-cleanup', cw, sg, wt, 'before the commit worker goes to sleep it signals the cleanup worker (enacted logs are waiting to be cleaned)')
+    if cw:
+        # enact_logs reports "no more work" at the end of every log FILE, while the wake-up flag is a single boolean:
+        # several rotations can coalesce into one signal, so the worker must look at the hand-over queue before it sleeps
+        wt = sites_on(cw, WAIT, '.DbInner.commit_worker_wait')
+        for w2 in wt:
+            calls, fields, binops = lib.guard_influences(cw, w2)
+            ok = any(c in F.bodies and '.Log.read_queue' in set().union(*[lib.receiver_fields(F.body(c), t2, 0) for _, t2 in F.body(c).all_calls() if t2['a']] or [set()]) for c in calls)
+            ctx.ob('1u commit-worker-sleeps-only-if-no-file-queued', 'K3-guard', cw.path,
+                   'the commit worker waits for a signal only depending on a look at Log.read_queue (signals coalesce: one flag, possibly several rotated files)', ok,
+                   'the wait does not depend on the state of the hand-over queue', cw.loc(w2))
     cl = ctx.body('db::DbInner::clean_logs')
     if cl:
         sg = sites_on(cl, SIGNAL, '.DbInner.cleanup_queue_wait')
